@@ -10,6 +10,16 @@ use crate::subject::{self, ChoiceReader, RCfg};
 use serde_json::{json, Value};
 use std::io::BufReader;
 
+/// names whose field identifiers collide (Foo / foo): the internal order of children becomes visible
+fn collide_cfg(w: usize) -> SpaceCfg {
+    let mut c = SpaceCfg::plain(w);
+    c.enames = vec!["Foo".into(), "foo".into(), "p".into()];
+    c.anames = vec![];
+    c.max_attrs = 0;
+    c.kinds = vec![Kind::Text];
+    c
+}
+
 fn full_cfg(w: usize) -> SpaceCfg {
     let mut c = SpaceCfg::plain(w);
     c.kinds = vec![Kind::Text, Kind::Ws, Kind::CData, Kind::Comment, Kind::PI];
@@ -211,7 +221,10 @@ pub fn run(ctx: &Ctx) {
     ctx.set("exhaustive", json!(true));
     let cmp = Cmp { ctx };
     // 1. every document against its rewrites and its skeleton representative
-    let sp = Space::new(full_cfg(ctx.tier.pick(5, 6)));
+    let mut evals = 0u64;
+    let mut grouped = 0u64;
+    for cfg in [full_cfg(ctx.tier.pick(5, 6)), collide_cfg(ctx.tier.pick(5, 6))] {
+    let sp = Space::new(cfg);
     let res = par_for(
         sp.len(),
         ctx.threads,
@@ -237,11 +250,13 @@ pub fn run(ctx: &Ctx) {
             }
         },
     );
-    let mut evals: u64 = res.accs.iter().map(|a| a.0).sum();
-    let grouped: u64 = res.accs.iter().map(|a| a.1).sum();
-    ctx.set("documents", json!({"space": sp.cfg.describe(), "size": sp.len(), "visited": res.processed, "documents_differing_from_their_representative": grouped}));
+    evals += res.accs.iter().map(|a| a.0).sum::<u64>();
+    let g: u64 = res.accs.iter().map(|a| a.1).sum();
+    grouped += g;
+    ctx.push("documents", json!({"space": sp.cfg.describe(), "size": sp.len(), "visited": res.processed, "documents_differing_from_their_representative": g}));
     if !res.complete {
         ctx.set("exhaustive", json!(false));
+    }
     }
     // 2.-5. wrappers, values, reader configuration and buffer capacities on a smaller space
     let sp3 = Space::new(full_cfg(ctx.tier.pick(3, 4)));
@@ -265,6 +280,10 @@ pub fn run(ctx: &Ctx) {
                     *acc += cmp.same("values", &base, &[xml(&set_values(&n, a, t))], i, json!(null));
                 }
             }
+            // text replaced by a reference to an entity declared in the DOCTYPE
+            let dt = vec![Misc::DocType("r [<!ENTITY e \"v\">]".into())];
+            let with_dt = |m: &Node| Doc { prolog: dt.clone(), root: Some(m.clone()), epilog: vec![] }.to_xml();
+            *acc += cmp.same("values", &[with_dt(&n)], &[with_dt(&set_values(&n, "v", "&e;"))], i, json!(null));
             let want = observe_docs(&base);
             // expand_empty_elements
             let got = observe_cfg(&base, &RCfg { expand_empty_elements: true, ..Default::default() });
@@ -360,7 +379,8 @@ pub fn run(ctx: &Ctx) {
     // 7. the rewrites applied to members of a history (Start and Empty paths under surrounding occurrences)
     let alpha: Vec<Node> = {
         let s = Space::new(full_cfg(2));
-        (0..s.len()).map(|i| s.get(i)).collect()
+        let c = Space::new(collide_cfg(3));
+        (0..s.len()).map(|i| s.get(i)).chain((0..c.len()).map(|i| c.get(i))).collect()
     };
     let hist_len = ctx.tier.pick(2, 3);
     let total = (alpha.len() as u64).pow(hist_len as u32);
